@@ -74,19 +74,44 @@ class LLGo:
         return sh(cmd, cwd=progdir, env=self.env(env), timeout=timeout)
 
     def run_bin(self, binp, args=(), timeout=120, cwd=None, stdin=None):
-        e = self.env()
-        try:
-            p = subprocess.run([binp] + list(args), cwd=cwd, env=e, timeout=timeout, input=stdin,
-                               stdout=subprocess.PIPE, stderr=subprocess.PIPE, text=True, errors="replace")
-            return p.returncode, p.stdout, p.stderr
-        except subprocess.TimeoutExpired as ex:
-            so = ex.stdout or b""
-            se = ex.stderr or b""
-            if isinstance(so, bytes):
-                so = so.decode("utf-8", "replace")
-            if isinstance(se, bytes):
-                se = se.decode("utf-8", "replace")
-            return 124, so, se + "[timeout]"
+        return run_capped([binp] + list(args), self.env(), timeout, cwd, stdin)
+
+
+def run_capped(cmd, env, timeout, cwd=None, stdin=None, cap=32 << 20):
+    """run a program with its output going to files; kill it on timeout or when it has printed more
+    than `cap` bytes (a miscompiled program may loop printing forever).  Returns (rc, stdout, stderr)."""
+    import tempfile, time as _t
+    d = tempfile.mkdtemp(prefix="run.", dir=os.environ.get("VERIF_WORK", "/var/tmp"))
+    so, se = os.path.join(d, "out"), os.path.join(d, "err")
+    try:
+        with open(so, "wb") as fo, open(se, "wb") as fe:
+            p = subprocess.Popen(cmd, cwd=cwd, env=env, stdin=subprocess.PIPE if stdin is not None else subprocess.DEVNULL,
+                                 stdout=fo, stderr=fe)
+            if stdin is not None:
+                try:
+                    p.stdin.write(stdin.encode() if isinstance(stdin, str) else stdin)
+                    p.stdin.close()
+                except OSError:
+                    pass
+            t0 = _t.time()
+            note = ""
+            while p.poll() is None:
+                _t.sleep(0.05)
+                if _t.time() - t0 > timeout:
+                    p.kill()
+                    note = "[timeout]"
+                    break
+                if os.path.getsize(so) + os.path.getsize(se) > cap:
+                    p.kill()
+                    note = "[output limit exceeded]"
+                    break
+            p.wait()
+            rc = 124 if note else p.returncode
+        out = open(so, "rb").read(cap).decode("utf-8", "replace")
+        err = open(se, "rb").read(cap).decode("utf-8", "replace") + note
+        return rc, out, err
+    finally:
+        shutil.rmtree(d, ignore_errors=True)
 
 
 def go_build(progdir, out, env=None, timeout=600, tags=None):
@@ -98,12 +123,7 @@ def go_build(progdir, out, env=None, timeout=600, tags=None):
 
 
 def run_plain(binp, args=(), timeout=120, cwd=None, stdin=None, env=None):
-    try:
-        p = subprocess.run([binp] + list(args), cwd=cwd, timeout=timeout, input=stdin, env=env,
-                           stdout=subprocess.PIPE, stderr=subprocess.PIPE, text=True, errors="replace")
-        return p.returncode, p.stdout, p.stderr
-    except subprocess.TimeoutExpired as ex:
-        return 124, "", "[timeout]"
+    return run_capped([binp] + list(args), env, timeout, cwd, stdin)
 
 
 def write_module(d, files, modname="verifprog"):
